@@ -75,6 +75,13 @@ MUTANTS += [
 ]
 
 REFACTORS = [
+  # verified silent under all 28 checks (tools run 2026-09-22); listed under the properties whose rules look at the construct
+  dict(id="ref:rename-local", subs=[sub("smooth.py", "  mat = ximat_in[worldid, bodyid]\n", "  ximat_local = ximat_in[worldid, bodyid]\n  mat = ximat_local\n")], silent=["C01", "C02", "C09", "C11"]),
+  dict(id="ref:alias-address", subs=[sub("forward.py", "  qpos_adr = jnt_qposadr[jntid]\n  dof_adr = jnt_dofadr[jntid]\n", "  qpos_address = jnt_qposadr[jntid]\n  qpos_adr = qpos_address\n  dof_adr = jnt_dofadr[jntid]\n")], silent=["C08", "C23", "C11"]),
+  dict(id="ref:row-guard-negated", subs=[sub("constraint.py", "    if efcid >= njmax_in:\n      return\n", "    if not (efcid < njmax_in):\n      return\n", nth=0)], silent=["C16", "C17", "C05"]),
+  dict(id="ref:done-via-local", subs=[sub("solver.py", "    worldid, efcid = wp.tid()\n\n    if ctx_done_in[worldid]:\n      return\n", "    worldid, efcid = wp.tid()\n\n    done = ctx_done_in[worldid]\n    if done:\n      return\n", nth=0)], silent=["C25", "C24", "C11"]),
+  dict(id="ref:flag-helper", subs=[sub("passive.py", "  dsbl_spring = m.opt.disableflags & DisableBit.SPRING\n  dsbl_damper = m.opt.disableflags & DisableBit.DAMPER\n", "  dsbl_spring = _disabled(m, DisableBit.SPRING)\n  dsbl_damper = _disabled(m, DisableBit.DAMPER)\n"), sub("passive.py", "@event_scope\ndef passive(m: Model, d: Data):", "def _disabled(m: Model, bit: int):\n  return m.opt.disableflags & bit\n\n\n@event_scope\ndef passive(m: Model, d: Data):")], silent=["C32", "C12", "C37"]),
+  dict(id="ref:launch-dim-local", subs=[sub("smooth.py", "  wp.launch(\n    _cam_local_to_global,\n    dim=(d.nworld, m.ncam),\n    inputs=[", "  cam_dim = (d.nworld, m.ncam)\n  wp.launch(\n    _cam_local_to_global,\n    dim=cam_dim,\n    inputs=[")], silent=["C01", "C09", "C33"]),
   dict(id="ref:inverse-sum-reordered", subs=[sub("inverse.py", "  qfrc_inverse = qfrc_bias_in[worldid, dofid]\n  qfrc_inverse += Ma[worldid, dofid]", "  qfrc_inverse = Ma[worldid, dofid]\n  qfrc_inverse += qfrc_bias_in[worldid, dofid]")], silent=["C26"]),
   dict(id="ref:hoist-modulo-into-local", subs=[sub("derivative.py", "  mass = body_mass[worldid % body_mass.shape[0], bodyid]", "  body_mass_id = worldid % body_mass.shape[0]\n  mass = body_mass[body_mass_id, bodyid]")], silent=["C10", "C09", "C08"]),
   dict(id="ref:world-alias", subs=[sub("smooth.py", "  if bodyid != 0:\n    wp.atomic_add(subtree_com_out, worldid, pid, subtree_com_in[worldid, bodyid])", "  w = worldid\n  if bodyid != 0:\n    wp.atomic_add(subtree_com_out, w, pid, subtree_com_in[w, bodyid])")], silent=["C09", "C11", "C01"]),
